@@ -283,6 +283,24 @@ def body_not_under_lock(rep):
                 replay=dict(reproduced=True, detail=p.stdout.strip()[-300:]), replay_script=f"import subprocess\nenv = dict(os.environ); env['PYTHONPATH'] = os.environ.get('VERIF_REPO', {REPO!r})\np = subprocess.run([sys.executable, '-c', {BODY_SRC!r}], env=env, cwd='/')\nsys.exit(p.returncode)\n")
     rep.bounded.append(dict(kind='other threads register / import while the main thread is inside a beartyping() body (bounded stand-in, NOT counted as proved)', scenarios=2, failing=int(p.returncode == 1)))
 
+def hook_then_flush(rep):
+    """"no lost registration": importlib memoises one FileFinder per directory; a finder created while the beartype path hook is NOT (or no longer) in
+    sys.path_hooks never consults it.  Both functions that change sys.path_hooks must therefore flush importlib's caches AFTER the change - a flush
+    before it leaves a window in which another thread's import re-creates hook-less finders that nothing flushes again.  Structural ordering
+    obligation on the real ASTs of add_beartype_path_hook / remove_beartype_path_hook."""
+    rel = 'beartype/claw/_importlib/clawimpmain.py'
+    tree = parse(rel); n = 0
+    for fn in [x for x in ast.walk(tree) if isinstance(x, ast.FunctionDef) and x.name in ('add_beartype_path_hook', 'remove_beartype_path_hook')]:
+        changes = [c for c in ast.walk(fn) if isinstance(c, ast.Call) and isinstance(c.func, ast.Attribute) and c.func.attr in ('insert', 'remove', 'append', 'pop')
+                   and any(isinstance(x, ast.Name) and x.id == 'path_hooks' or isinstance(x, ast.Attribute) and x.attr == 'path_hooks' for x in ast.walk(c.func.value))]
+        flushes = [c for c in ast.walk(fn) if isinstance(c, ast.Call) and ((isinstance(c.func, ast.Name) and c.func.id in ('_clear_importlib_caches', 'invalidate_caches')) or (isinstance(c.func, ast.Attribute) and c.func.attr in ('invalidate_caches', 'clear')
+                   and any(isinstance(x, ast.Name) and x.id == 'path_importer_cache' or isinstance(x, ast.Attribute) and x.attr == 'path_importer_cache' for x in ast.walk(c.func.value))))]
+        n += 1
+        ok = bool(changes) and bool(flushes) and max(c.lineno for c in changes) < min(f.lineno for f in flushes)
+        rep.add(f'C15.ordering.path_hooks_changed_before_cache_flush.{fn.name}', 'proved' if ok else 'refuted', backend='structural',
+                where=f'{rel}: {fn.name}() changes sys.path_hooks at line(s) {[c.lineno for c in changes]} and flushes importlib\'s finder caches at line(s) {[f.lineno for f in flushes]}: the flush must come after the change')
+    if n != 2: rep.error(f'C15 hook_then_flush: {n} of 2 functions found (extraction key no longer resolves)')
+
 def main(tier, seed):
     rep = report.Report('C15', tier, seed, 'other', f'./check C15 --tier {tier}')
     ws = []
@@ -296,6 +314,7 @@ def main(tier, seed):
         pool_discipline(rep)
         lockfree_memo(rep)
         no_yield_under_lock(rep)
+        hook_then_flush(rep)
         body_not_under_lock(rep)
     except Exception: rep.error('C15: ' + traceback.format_exc()[-2500:])
     try:
